@@ -153,6 +153,9 @@ package channel
 //@   modifies wire, rd, c.Q.queue, c.Q.depth, chan(c.Q.depthChan), chan(cr), echoed, quiet, err, alloc()
 //@   ensures #exactly-one-result chlen(cr) == old(chlen(cr)) + 1
 //@   at call! WriteReturn#1 assert #return-only-after-echo echoed == input && wire == old(wire) ++ input
+//@   at call! processOut#1 assert [C01] #the-result-is-what-was-read-after-the-return-prompt-stripped-as-asked arg1 == op.StripPrompt && (op.Eager ==> len(arg0) == 0) && (!op.Eager ==> arg0 === nb)
+//@   at call! ReadUntilPrompt#1 assert [C01] #without-interim-patterns-the-read-ends-at-the-prompt len(op.InterimPromptPatterns) == 0 && !op.Eager
+//@   at call ReadUntilAnyPrompt#1 assert [C01] #with-interim-patterns-the-read-ends-at-the-prompt-or-one-of-them !op.Eager && arg1 === refs(c.PromptPattern) ++ op.InterimPromptPatterns
 
 // ---- C12: interactive dialogues are paced by the device; C11: hidden inputs are written redacted -----------------------
 
